@@ -10,11 +10,12 @@ TIE = ["Nsq.Tie.TimingOpts"]
 PROPS = ["Nsq.Props.C04Opts"]
 SPECS = ["e1_opts"]
 ASSUMPTIONS = [
-    "deadline_cap_fixed (every in-flight deadline <= deliveryTS + max-msg-timeout for every accepted option pair) is "
-    "about the tree WITH fix F40 (nsqd.New lowers --msg-timeout to --max-msg-timeout when it is above); on a tree without it the clause is "
-    "false (deadline_cap_unfixed_false, replayed on the real daemon: KNOWN-FINDING msg-timeout-above-max) and what holds "
-    "is deadline_cap_general (<= deliveryTS + max(msg-timeout, max-msg-timeout)) + touch_restores_cap; which tree this "
-    "is, is read off nsqd.New on every run (Tie.TimingOpts.treeFixed)",
+    "deadline_cap_this_tree (every in-flight deadline <= deliveryTS + max-msg-timeout for every accepted option pair) holds with no "
+    "hypothesis on the options: F40 (/repo bedf305: nsqd.New lowers --msg-timeout to --max-msg-timeout when it is above) is committed, "
+    "Tie.TimingOpts.new_msgTimeout_shape accepts ONLY the shape with the guard and tree_fixed decides treeFixed = true from nsqd.New on "
+    "every run. deadline_cap_unfixed_false is a theorem about the tree BEFORE F40 (finding msg-timeout-above-max, listed fixed; the "
+    "harness evaluates the clause on the real daemon for every generated option pair: a reproduction is a VIOLATION); "
+    "deadline_cap_general + touch_restores_cap hold for both shapes",
 ]
 TRUSTED = [
     "harness harness/e1/opts_timeout_test.go (real New + Main, a real TCP consumer without msg_timeout, white-box read of the "
@@ -34,10 +35,12 @@ def tree_fixed(ctx):
 
 def run(ctx, corr_broken):
     fixed = tree_fixed(ctx)
-    if fixed is None:
-        corr_broken.append("Tie.TimingOpts.treeFixed does not evaluate (shape of nsqd.New's option checks changed)")
-        fixed = False
-    ctx.corr["msg_timeout_option_check"] = "present (F40)" if fixed else "absent (before F40)"
+    if fixed is not True:
+        # F40 is committed: the model the implementation is compared with is the FIXED one whatever the probe says
+        corr_broken.append("Tie.TimingOpts.treeFixed is not `true` (%s): nsqd.New no longer has the F40 guard" % (
+            "does not evaluate" if fixed is None else "false"))
+    ctx.corr["msg_timeout_option_check"] = "present (F40)" if fixed else "absent or changed (expected: F40 guard)"
+    fixed = True
     binp = ctx.go_test_binary("nsqd", ["e1/opts_timeout_test.go"], "e1c04opts")
     if not binp:
         ctx.broken_ties.append("harness e1/opts_timeout_test.go does not compile against the current tree")
